@@ -96,9 +96,11 @@ std::string op_to_string(const Op &op, int rank) {
     switch (op.kind) {
     case OP_CREATE: s += ",'" + op.name + "',CDF-" + std::to_string(op.a[0]); break;
     case OP_OPEN: s += ",'" + op.name + "'," + (op.a[0] ? "rw" : "ro"); break;
+    case OP_MANYFILES: s += ",create " + std::to_string(op.a[0]) + ",close " + std::to_string(op.a[1]) + " (order " + std::to_string(op.a[2]) + "),fill up"; break;
     case OP_BIGCASE: s += "," + bigcase_text(bigcase_decode(op.att.v)); break;
     case OP_DEF_DIM: s += ",'" + op.name + "'," + std::to_string(op.a[0]); break;
     case OP_DEF_VAR: s += ",'" + op.name + "'," + nc_type_name((int)op.a[0]) + ",dims=" + vec_s(op.dims); break;
+    case OP_COPY_ATT: s += ",var=" + std::to_string(op.var) + ",'" + op.name + "'->f" + std::to_string(op.a[0]) + ",var=" + std::to_string(op.a[1]); break;
     case OP_PUT_ATT: s += ",var=" + std::to_string(op.var) + ",'" + op.name + "'," + nc_type_name(op.att.type) + ",n=" + std::to_string(op.att.v.size()); break;
     case OP_PUT: case OP_GET: case OP_IPUT: case OP_IGET: case OP_BPUT: {
         static const char *fn[] = {"var1", "var", "vara", "vars", "varm", "varn", "vard"};
